@@ -543,6 +543,59 @@ def nt_points(labels):
 
 
 # ---------------------------------------------------------------------------
+# law: the same statements for single-precision data (complex64 / float32 arrays)
+@st.composite
+def single_precision_case(draw):
+    shape = draw(st.lists(st.sampled_from([1, 2, 3]), min_size=0, max_size=2))
+    cnt = 1
+    for k in shape:
+        cnt *= k
+    return dict(shape=shape, zs=[draw(cplx(0.1, 10.0, zero=True)) for _ in range(cnt)],
+                scales=[draw(cplx(0.3, 3.0)) for _ in range(cnt)],
+                rs=[draw(fl(0.2, 3.0)) for _ in range(cnt)])
+
+
+def body_single_precision(case, ctx):
+    shape = tuple(case["shape"])
+    ctx.label("rank=%d" % len(shape), "generic")
+    Z = np.array([cx(z) for z in case["zs"]], dtype=np.complex64).reshape(shape)
+    Sc = np.array([cx(z) for z in case["scales"]], dtype=np.complex64).reshape(shape)
+    Z128 = Z.astype(complex)
+    want_s = np.array([O.z_to_sphere(complex(z)) for z in Z128.reshape(-1)]).reshape(
+        shape + (3,))
+    tol = 2e-5
+    # homogeneous complex64 data
+    H = np.stack([Sc, Sc * Z], axis=-1).astype(np.complex64)
+    Q = CP1Point(H.copy())
+    ctx.close("spherical_coords() of complex64 homogeneous data", Q.spherical_coords(), want_s,
+              rtol=0, atol=tol)
+    ra = np.asarray(Q.real_affine_coords(), dtype=float)
+    ctx.close("real_affine_coords() of complex64 homogeneous data",
+              ra[..., 0] + 1j * ra[..., 1], Z128, rtol=tol, atol=tol)
+    A = CP1Point(Z.copy(), coords="cx_affine")
+    ctx.close("spherical_coords() of a complex64 cx_affine point", A.spherical_coords(), want_s,
+              rtol=0, atol=tol)
+    B = CP1Point(np.stack([Z.real, Z.imag], axis=-1).astype(np.float32), coords="real_affine")
+    ctx.close("real_affine_coords() of float32 input", B.real_affine_coords(),
+              np.stack([Z128.real, Z128.imag], axis=-1), rtol=tol, atol=tol)
+    S32 = want_s.astype(np.float32)
+    R = CP1Point(S32.copy(), coords="spherical")
+    ctx.close("spherical -> projective -> spherical with float32 input", R.spherical_coords(),
+              want_s, rtol=0, atol=tol)
+    # disks from complex64 centres and float32 radii
+    rs = np.array(case["rs"], dtype=np.float32).reshape(shape)
+    D = CP1Disk(Z.copy(), rs.copy())
+    c, r = D.circle_parameters()
+    c = np.asarray(c, dtype=float)
+    ctx.close("circle_parameters() centre of a disk built from complex64 / float32 input",
+              c[..., 0] + 1j * c[..., 1], Z128, rtol=tol, atol=tol)
+    ctx.close("circle_parameters() radius of a disk built from complex64 / float32 input",
+              np.asarray(r, dtype=float), rs.astype(float), rtol=tol, atol=tol)
+    ctx.check(bool(np.all(np.asarray(D.center_inside()))), "a bounded disk built from single-"
+              "precision input contains its centre")
+
+
+# ---------------------------------------------------------------------------
 # law: CP1Disk(c, r) reports (c, r)
 @st.composite
 def affine_disk_case(draw):
@@ -998,6 +1051,8 @@ def body_unit(case, ctx):
 LAWS = [
     Law("spherical_roundtrip_stereographic", points_case(), body_spherical, nt_points,
         quick=250, thorough=1500, shards=(1, 4)),
+    Law("single_precision_data", single_precision_case(), body_single_precision,
+        lambda l: True, quick=150, thorough=800, shards=(1, 2)),
     Law("affine_disk_reports", affine_disk_case(), body_affine_disk, nt_centre, quick=250,
         thorough=1500, shards=(1, 4)),
     Law("fs_disk_reports", fs_case(), body_fs, nt_fs, quick=250, thorough=1500,
